@@ -93,11 +93,21 @@ def pack_key(ktype, k):
         body = b'\x01' + len(raw).to_bytes(4, 'big') + raw
         for i in reversed(ints):
             body = b'\x07\x07' + b'\x00' + _zarith_signed(i) + body
-    elif ktype in ('address', 'key_hash'):
-        tag = {'tz1': 0, 'tz2': 1, 'tz3': 2}[k[:3]]
-        raw = bytes([tag]) + oc.b58dec(k[:3], k)
-        if ktype == 'address':
-            raw = b'\x00' + raw
+    elif ktype in ('address', 'key_hash', 'address_mix'):
+        addr, _, ep = k.partition('%')
+        if addr[:3] in ('tz1', 'tz2', 'tz3'):
+            tag = {'tz1': 0, 'tz2': 1, 'tz3': 2}[addr[:3]]
+            raw = bytes([tag]) + oc.b58dec(addr[:3], addr)
+            if ktype != 'key_hash':
+                raw = b'\x00' + raw
+        elif addr.startswith('KT1'):
+            raw = b'\x01' + oc.b58dec('KT1', addr) + b'\x00'
+        else:  # sr1
+            import base58 as _b58
+
+            raw = b'\x03' + _b58.b58decode_check(addr)[3:] + b'\x00'
+        if ep and ep != 'default':
+            raw += ep.encode()
         body = b'\x0a' + len(raw).to_bytes(4, 'big') + raw
     else:
         raise core.HarnessError(ktype)
@@ -111,7 +121,7 @@ def key_hash(ktype, k):
 def key_michelson(ktype, k):
     if ktype == 'int':
         return str(k)
-    if ktype in ('string', 'address', 'key_hash'):
+    if ktype in ('string', 'address', 'key_hash', 'address_mix'):
         return f'"{k}"'
     if ktype == 'bytes':
         return '0x' + k
@@ -135,7 +145,7 @@ def flatten_pairs(m):
 def key_micheline(ktype, k):
     if ktype == 'int':
         return {'int': str(k)}
-    if ktype in ('string', 'address', 'key_hash'):
+    if ktype in ('string', 'address', 'key_hash', 'address_mix'):
         return {'string': k}
     if ktype == 'bytes':
         return {'bytes': k}
@@ -145,8 +155,8 @@ def key_micheline(ktype, k):
 
 
 KTYPE_M = {'int': 'int', 'string': 'string', 'bytes': 'bytes', 'pair': '(pair int string)', 'comb4': '(pair int int int string)', 'address': 'address',
-           'key_hash': 'key_hash'}
-VTYPE_M = {'string': 'string', 'list_nat': '(list nat)'}
+           'key_hash': 'key_hash', 'address_mix': 'address'}
+VTYPE_M = {'string': 'string', 'list_nat': '(list nat)', 'opt_unit': '(option unit)'}
 _ADDRS = ['tz1QBxCwcEEcvz5H5U1WkRvuGCVBFgiQGBbe', 'tz1iDKWtiNDiUJYuPv557Ag547zfS1MhZ17g', 'tz2BzLwiqRPz3nouEUdsywHpKJy9TsZWeEh3', 'tz2PYyg1yu8EgS6vDMwTu8ZrsxDEkgFwi8VJ',
           'tz3TW8qv2nGn3QnRU7TiJtu8HrZoArWJdXte', 'tz3U5FFmcM57YVo1eb7W9rkS3NbDWeE1av6X']
 
@@ -158,12 +168,17 @@ def _num(tok):
 def val_micheline(vtype, tok):
     if vtype == 'string':
         return {'string': tok}
+    if vtype == 'opt_unit':
+        # only two values exist; they are told apart by parity of the token number
+        return {'prim': 'None'} if _num(tok) % 2 else {'prim': 'Some', 'args': [{'prim': 'Unit'}]}
     return [] if tok.startswith('E') else [{'int': str(_num(tok))}]
 
 
 def val_michelson(vtype, tok):
     if vtype == 'string':
         return f'"{tok}"'
+    if vtype == 'opt_unit':
+        return 'None' if _num(tok) % 2 else '(Some Unit)'
     return '{}' if tok.startswith('E') else '{ %d }' % _num(tok)
 
 UNIVERSES = {
@@ -174,18 +189,20 @@ UNIVERSES = {
     'comb4': [[0, 0, 0, ''], [1, 2, 3, 'x'], [1, 1, 1, 'a'], [-1, 64, 0, 'a'], [1, 2, 3, 'y'], [0, 0, 1, '']],
     'address': _ADDRS,
     'key_hash': _ADDRS,
+    'address_mix': ['tz1QBxCwcEEcvz5H5U1WkRvuGCVBFgiQGBbe', 'KT1BEqzn5Wx8uJrZNvuS9DVHmLvG9td3fDLi', 'sr1JZsZT5u27MUQXeTh1aHqZBo8NvyxRKnyv',
+                    'KT1BEqzn5Wx8uJrZNvuS9DVHmLvG9td3fDLi%transfer', 'tz3U5FFmcM57YVo1eb7W9rkS3NbDWeE1av6X', 'KT1Ha4yFVeyzw6KRAdkzq6TxDHB97KG4pZe8'],
 }
 
 
 def gen(seed, tier):
     rng = rng_for(seed, 15)
-    ktype = rng.choice(['int', 'int', 'string', 'bytes', 'pair', 'comb4', 'address', 'address'])
+    ktype = rng.choice(['int', 'int', 'string', 'bytes', 'pair', 'comb4', 'address', 'address', 'address_mix', 'address_mix'])
     # the second on-chain big_map has the same key type, or a sibling type whose keys are written with the same text
     sibling = {'address': 'key_hash', 'string': 'string'}.get(ktype, ktype)
     ktypes = {'1000': ktype, '1001': sibling if rng.random() < 0.8 else ktype}
     if rng.random() < 0.5:
         ktypes = {'1000': ktypes['1001'], '1001': ktypes['1000']}
-    vtype = rng.choice(['string', 'string', 'list_nat'])
+    vtype = rng.choice(['string', 'string', 'list_nat', 'opt_unit'])
     nkeys = rng.choice([1, 2, 3, 4, 6])
     keys = rng.sample(UNIVERSES[ktype], min(nkeys, len(UNIVERSES[ktype])))
     chain0 = {}
@@ -210,6 +227,8 @@ def gen(seed, tier):
     steps = []
     for t in range(ntx):
         src = rng.choice(['chain', 'chain', 'chain', 'literal', 'empty', 'prev', 'param'])
+        if src == 'literal' and ktype == 'address_mix':
+            src = 'empty'
         st = {'op': 'begin', 'src': src, 'bm': rng.choice(['1000', '1000', '1001'])}
         if src == 'literal':
             lit = {}
@@ -613,7 +632,7 @@ def _sort_key(ktype, k):
         return tuple(k[:-1]) + (k[-1].encode(),)
     if ktype == 'string':
         return k.encode()
-    if ktype in ('address', 'key_hash'):
+    if ktype in ('address', 'key_hash', 'address_mix'):
         return pack_key(ktype, k)
     return k
 
